@@ -59,14 +59,16 @@ import numpy as np
 
 
 def make_slice_cache(cycle_vect):
-    """Create a list of slice objects from a cycle_vect."""
-    starts = np.where(np.diff(cycle_vect, axis=0) == 1)[0] + 1
-    stops = starts
+    """Create a list of slice objects from a cycle_vect, one per cycle in order."""
+    cycle_vect = np.asarray(cycle_vect)
+    if cycle_vect.ndim > 1:
+        cycle_vect = cycle_vect[:, 0]
 
-    starts = np.r_[0, starts]
-    stops = np.r_[stops, len(cycle_vect)]
+    # Every run of equal labels is one segment - segments labelled -1 are not cycles
+    edges = np.r_[0, np.where(np.diff(cycle_vect) != 0)[0] + 1, len(cycle_vect)]
 
-    slice_cache = [slice(starts[ii], stops[ii]) for ii in range(len(starts))]
+    slice_cache = [slice(edges[ii], edges[ii+1]) for ii in range(len(edges)-1)
+                   if edges[ii+1] > edges[ii] and cycle_vect[edges[ii]] > -1]
 
     return slice_cache
 
